@@ -41,9 +41,9 @@ ASSUMPTIONS = [
 ]
 TIMEOUT = {"quick": 40, "thorough": 90}
 DEADLINE = {"quick": 100, "thorough": 1500}
-MIN_DECIDING = {"quick": 60, "thorough": 600}
-PER_FAMILY = {"quick": 13, "thorough": 330}
-N_SYM = {"quick": 25, "thorough": 150}
+MIN_DECIDING = {"quick": 100, "thorough": 1500}
+PER_FAMILY = {"quick": 13, "thorough": 500}
+N_SYM = {"quick": 25, "thorough": 200}
 N_TRANSFORM = {"quick": 31, "thorough": 248}
 
 TOL_TRANSFORM = mp.mpf(10) ** -25
@@ -54,7 +54,7 @@ ORACLE_ERR_MAX = mp.mpf(10) ** -18
 # ---------------------------------------------------------------------------------------------- generation
 def generate(seed, tier):
     rng = random.Random(K.harness_seed(seed, ID, 0))
-    cases = G.law_cases(rng, PER_FAMILY[tier])
+    cases = G.law_cases(rng, PER_FAMILY[tier], kmax=8 if tier == "quick" else 10)
     cases += G.sym_cases(rng, N_SYM[tier])
     cases += G.transform_cases(rng, N_TRANSFORM[tier])
     random.Random(K.harness_seed(seed, ID, 1)).shuffle(cases)
@@ -64,7 +64,10 @@ def generate(seed, tier):
         c["budget"] = 6 if tier == "quick" else 20
         if c["kind"] == "law" and c["family"] == "Beta" and "integer-shapes" not in c["features"]:
             nslow += 1
-            c["slow_ok"] = (nslow % 5 == 1) if tier == "quick" else (nslow % 4 == 1)
+            c["slow_ok"] = (nslow % 5 == 1) if tier == "quick" else (nslow % 8 == 1)
+        if c["kind"] == "law" and i % 3 == 0:
+            c["via_parser"] = True  # the distribution object is taken from the real parser's output instead of the factory
+            c["features"] = sorted(c["features"] + ["via-parser"])
     return cases
 
 
@@ -630,8 +633,13 @@ def run_law(case, tier):
     budget = case.get("budget", 6)
     sample = {"kind": "law", "call": f"{fam}({', '.join(case['params'])})"}
     try:
-        dist = make_dist(fam, case["params"])
-        ctx.ev("distribution_factory")
+        if case.get("via_parser"):
+            prog = P.parse_string(f"x = 0\nwhile true:\n    x = {fam}({', '.join(case['params'])})\nend")
+            dist = prog.loop_body[0].distribution
+            ctx.ev("Parser.parse_string")
+        else:
+            dist = make_dist(fam, case["params"])
+            ctx.ev("distribution_factory")
     except Exception as e:
         ctx.refuse(e)
         return ctx.result(sample)
